@@ -111,6 +111,7 @@ fn part_ok(got: Option<NtpDuration>, supplied: Option<Val>) {
         Some(Val::F(x)) => {
             assert!(!x.is_nan(), "accepted a NaN threshold part");
             assert!(x >= 0.0, "accepted a negative threshold part");
+            assert!(x != f64::INFINITY, "accepted an infinite threshold part (only the string \"inf\" means unlimited)");
             assert!(got.is_some(), "numeric part yields a limit");
             if x >= 1.0 {
                 assert!(th::dur_raw(got.unwrap()) >= 1 << 32, "limit not smaller than one second for inputs >= 1.0");
@@ -234,39 +235,38 @@ fn check_map<const N: usize>(k: [u8; N], v: [Val; N]) -> Option<StepThreshold> {
     }
 }
 
-fn any_safe_val() -> Val {
-    let v = any_val();
-    // NaN/negative: `_kf_` twin; +inf: dev-profile debug_assert only (see registry notes)
-    kani::assume(!val_unsafe(v) && !val_posinf(v));
-    v
+/// Every scalar, including NaN, negatives and infinities (which must be rejected; the
+/// per-direction form accepted them before /repo cf1802a).
+fn any_scalar() -> Val {
+    any_val()
 }
 
-/// `{ forward = v }` for every safe scalar v.
+/// `{ forward = v }` for every scalar v.
 #[kani::proof]
 #[kani::unwind(10)]
 fn c39_map_forward() {
-    let v = any_safe_val();
+    let v = any_scalar();
     let r = check_map([0], [v]);
     kani::cover!(matches!(r, Some(t) if t.forward.is_some() && t.backward.is_none()), "forward limited, backward unlimited");
     kani::cover!(matches!(r, Some(t) if t.forward.is_none()), "forward = \"inf\"");
-    kani::cover!(r.is_none(), "rejected (string other than \"inf\")");
+    kani::cover!(r.is_none(), "rejected (bad string or unsafe number)");
 }
 
-/// `{ backward = v }` for every safe scalar v.
+/// `{ backward = v }` for every scalar v.
 #[kani::proof]
 #[kani::unwind(10)]
 fn c39_map_backward() {
-    let v = any_safe_val();
+    let v = any_scalar();
     let r = check_map([1], [v]);
     kani::cover!(matches!(r, Some(t) if t.backward.is_some() && t.forward.is_none()), "backward limited, forward unlimited");
-    kani::cover!(r.is_none(), "rejected (string other than \"inf\")");
+    kani::cover!(r.is_none(), "rejected (bad string or unsafe number)");
 }
 
 /// `{ sideways = v }` is rejected; `{}` is accepted as unlimited.
 #[kani::proof]
 #[kani::unwind(10)]
 fn c39_map_unknown_empty() {
-    let v = any_safe_val();
+    let v = any_scalar();
     let r = check_map([2], [v]);
     assert!(r.is_none(), "unknown key accepted");
     let e = check_map([], []);
@@ -275,20 +275,18 @@ fn c39_map_unknown_empty() {
 
 /// Float or string value (the integer kinds go through the same `visit_f64` and are covered by the
 /// one-entry harnesses; two full scalars per harness cost > 200 s).
-fn any_safe_fs() -> Val {
+fn any_float_or_str() -> Val {
     let f: f64 = kani::any();
     let s: [u8; 3] = kani::any();
     kani::assume(s[0] < 0x80 && s[1] < 0x80 && s[2] < 0x80);
-    let v = if kani::any() { Val::F(f) } else { Val::S(s) };
-    kani::assume(!val_unsafe(v) && !val_posinf(v));
-    v
+    if kani::any() { Val::F(f) } else { Val::S(s) }
 }
 
 /// `{ forward = a, backward = b }`.
 #[kani::proof]
 #[kani::unwind(10)]
 fn c39_map_two_fb() {
-    let v = [any_safe_fs(), any_safe_fs()];
+    let v = [any_float_or_str(), any_float_or_str()];
     let r = check_map([0, 1], v);
     kani::cover!(matches!(r, Some(t) if t.forward.is_some() && t.backward.is_some()), "both limited");
     kani::cover!(matches!(r, Some(t) if t.forward.is_none() && t.backward.is_some()), "forward unlimited, backward limited");
@@ -297,7 +295,7 @@ fn c39_map_two_fb() {
 #[kani::proof]
 #[kani::unwind(10)]
 fn c39_map_two_bf() {
-    let v = [any_safe_fs(), any_safe_fs()];
+    let v = [any_float_or_str(), any_float_or_str()];
     let r = check_map([1, 0], v);
     kani::cover!(matches!(r, Some(t) if t.forward.is_some() && t.backward.is_some()), "both limited");
 }
@@ -306,30 +304,32 @@ fn c39_map_two_bf() {
 #[kani::proof]
 #[kani::unwind(10)]
 fn c39_map_dup_forward() {
-    let v = [any_safe_fs(), any_safe_fs()];
+    let v = [any_float_or_str(), any_float_or_str()];
     let r = check_map([0, 0], v);
     assert!(r.is_none(), "duplicate key accepted");
 }
 #[kani::proof]
 #[kani::unwind(10)]
 fn c39_map_dup_backward() {
-    let v = [any_safe_fs(), any_safe_fs()];
+    let v = [any_float_or_str(), any_float_or_str()];
     let r = check_map([1, 1], v);
     assert!(r.is_none(), "duplicate key accepted");
 }
 
-/// Expected to FAIL on the unchanged tree: `ThresholdPart::visit_f64`/`visit_i64` accept NaN and
-/// negative values (single known key, so the unsafe value decides the outcome and every
-/// counterexample reproduces in the release profile through the oracle).
+/// Formerly the known-finding twin (fixed by /repo cf1802a): a per-direction value that is NaN,
+/// negative or infinite (f64 or integer) must be rejected.
 #[kani::proof]
 #[kani::unwind(10)]
-fn c39_map_kf_unvalidated_part() {
-    // only the two numeric kinds that reach `NtpDuration::from_seconds` unvalidated
+fn c39_map_unvalidated_part() {
     let f: f64 = kani::any();
     let i: i64 = kani::any();
     let v = if kani::any() { Val::F(f) } else { Val::I(i) };
-    kani::assume(val_unsafe(v));
-    check_map([0], [v]);
+    kani::assume(val_unsafe(v) || val_posinf(v));
+    let r = if kani::any() { check_map([0], [v]) } else { check_map([1], [v]) };
+    assert!(r.is_none(), "unsafe per-direction threshold accepted");
+    kani::cover!(matches!(v, Val::F(x) if x.is_nan()), "NaN rejected");
+    kani::cover!(matches!(v, Val::F(x) if x == f64::INFINITY), "+inf rejected");
+    kani::cover!(matches!(v, Val::I(x) if x == -1), "-1 rejected");
 }
 
 // ------------------------------------------------------------------------------ plain durations
